@@ -137,6 +137,7 @@ type stream struct {
 	sentSinceBind int
 	lostBeforeUnbind bool
 	epoch  int
+	oldGates  []*obs.RTPGate // next writers of earlier bindings of this stream
 	written   []rtp.Packet // packets written since the last bind by sequential, unheld calls
 	notSerial bool         // some write of this binding overlapped a held next writer
 }
@@ -386,6 +387,9 @@ func (rn *run11) bindStream(s *stream) {
 	op := "BindRemoteStream"
 	if s.local {
 		op = "BindLocalStream"
+		if s.gate != nil {
+			s.oldGates = append(s.oldGates, s.gate)
+		}
 		s.gate = obs.NewRTPGate(rn.rg.Clk, s.opts.SSRC)
 		s.gate.SetHook(rn.gateHook)
 		if !rn.call(op, func() { s.w = rn.b.I.BindLocalStream(s.info, s.gate) }) {
@@ -865,6 +869,24 @@ func (rn *run11) checkAfterUnbind(s *stream, until int64) {
 // checkFreshAfterRebind: binding the same SSRC again starts from fresh state.
 func (rn *run11) checkFreshAfterRebind(s *stream) {
 	rn.c.Add("rebinds_checked", 1)
+	if s.local && len(s.oldGates) > 0 && len(s.written) > 0 {
+		// whatever was written on the new binding belongs to the new binding's next writer; the
+		// writer of an earlier binding may at most still get what was accepted before
+		mine := map[uint16]bool{}
+		for _, p := range s.written {
+			mine[p.SequenceNumber] = true
+		}
+		for _, g := range s.oldGates {
+			for _, ev := range g.Events() {
+				if ev.Stamp > s.rebindStamp && ev.Header.SSRC == s.opts.SSRC && mine[ev.Header.SequenceNumber] {
+					rn.c.Violation(fmt.Sprintf("stale-writer-after-rebind/%s/rtp", rn.kind),
+						"sequence %v: SSRC %d was unbound and bound again with a new next writer; packet seq %d, written on the new binding, was delivered to the next writer of an EARLIER binding", rn.seq, s.opts.SSRC, ev.Header.SequenceNumber)
+					return
+				}
+			}
+		}
+		rn.c.Add("rebinds_checked_old_writer_silent", 1)
+	}
 	evs := rn.rg.RTCPOut.Events()
 	switch {
 	case rn.kind == zoo.ReportSender && s.local:
